@@ -772,6 +772,14 @@ impl<F: FileSystem + Sync> Server<F> {
                 };
 
                 let enabled = capable & want;
+                // The client only looks at `flags2` when the reply carries FUSE_INIT_EXT, so the
+                // marker must accompany any enabled extended bit.
+                #[cfg(target_os = "linux")]
+                let enabled = if enabled.bits() >> 32 != 0 {
+                    enabled | FsOptions::INIT_EXT
+                } else {
+                    enabled
+                };
                 let enabled_flags = enabled.bits();
                 let mut out = InitOut {
                     major: KERNEL_VERSION,
